@@ -24,6 +24,9 @@ mod logs;
 mod main_event_loop;
 mod storage;
 mod template;
+#[cfg(feature = "breard_r_acmed_verif")]
+#[path = "/verif/probe/probe.rs"]
+mod verif_probe;
 
 pub const APP_NAME: &str = "ACMEd";
 pub const APP_THREAD_NAME: &str = "acmed-runtime";
@@ -45,17 +48,31 @@ pub const DEFAULT_KP_REUSE: bool = false;
 pub const DEFAULT_ACCOUNT_KEY_TYPE: KeyType = KeyType::EcdsaP256;
 pub const DEFAULT_EXTERNAL_ACCOUNT_JWA: JwsSignatureAlgorithm = JwsSignatureAlgorithm::Hs256;
 pub const DEFAULT_POOL_NB_TRIES: usize = 20;
+#[cfg(not(feature = "breard_r_acmed_verif"))]
 pub const DEFAULT_POOL_WAIT_SEC: u64 = 5;
+#[cfg(feature = "breard_r_acmed_verif")]
+pub const DEFAULT_POOL_WAIT_SEC: u64 = 0;
 pub const DEFAULT_HTTP_FAIL_NB_RETRY: usize = 10;
+#[cfg(not(feature = "breard_r_acmed_verif"))]
 pub const DEFAULT_HTTP_FAIL_WAIT_SEC: u64 = 1;
+#[cfg(feature = "breard_r_acmed_verif")]
+pub const DEFAULT_HTTP_FAIL_WAIT_SEC: u64 = 0;
 pub const DEFAULT_HOOK_ALLOW_FAILURE: bool = false;
+#[cfg(not(feature = "breard_r_acmed_verif"))]
 pub const MAX_RATE_LIMIT_SLEEP_MILISEC: u64 = 3_600_000;
+#[cfg(feature = "breard_r_acmed_verif")]
+pub const MAX_RATE_LIMIT_SLEEP_MILISEC: u64 = 200;
 pub const MIN_RATE_LIMIT_SLEEP_MILISEC: u64 = 100;
 
 type AccountSync = Arc<RwLock<account::Account>>;
 type EndpointSync = Arc<RwLock<endpoint::Endpoint>>;
 
 fn main() {
+	#[cfg(feature = "breard_r_acmed_verif")]
+	if std::env::var_os("ACMED_VERIF_RUN").is_some() {
+		verif_probe::main();
+		return;
+	}
 	Builder::new_multi_thread()
 		.enable_all()
 		.thread_name(APP_THREAD_NAME)
